@@ -296,8 +296,8 @@ func ruleNAccess(c *engine.Context) *report.Rule {
 			if b != ev {
 				return false
 			}
-			if al, isAl := b.(*ssa.Alloc); isAl && storesTo(al) != 1 {
-				fail("captured variable %s is reassigned after the accessor captured it (all accessors would address the last value)", al.Comment)
+			if al, isAl := b.(*ssa.Alloc); isAl && (storesTo(al) != 1 || storedInLoopOutsideAlloc(al)) {
+				fail("captured variable %s is reassigned after the accessor captured it (one variable shared by all iterations: every accessor would address the last value)", al.Comment)
 				return false
 			}
 			return true
@@ -942,7 +942,7 @@ func ruleNForward(c *engine.Context) *report.Rule {
 					if cl, isCall := sv.(*ssa.Call); isCall && cl.Call.StaticCallee() != nil && pa.acquire[cl.Call.StaticCallee()] {
 						privateSink = true
 					}
-					if !privateSink && (sink == nil || aSink != ssa.Value(sink)) {
+					if !privateSink && fn != p.EvalClosure && (sink == nil || aSink != ssa.Value(sink)) {
 						ok2 = false
 						why = append(why, "results are collected into a sink that is neither the caller's own nor a private pooled one")
 					}
@@ -1518,4 +1518,22 @@ func fieldOfAsserted(v ssa.Value, depth int) (int, ssa.Value, bool) {
 		return fieldOfAsserted(x.X, depth+1)
 	}
 	return 0, nil, false
+}
+
+// storedInLoopOutsideAlloc: the cell is assigned inside a loop that does not contain its allocation
+// (a variable declared outside the loop, or a pre-Go-1.22 loop variable, re-assigned per iteration).
+func storedInLoopOutsideAlloc(al *ssa.Alloc) bool {
+	loops := cfgutil.Loops(al.Parent())
+	for _, ref := range *al.Referrers() {
+		st, ok := ref.(*ssa.Store)
+		if !ok || st.Addr != ssa.Value(al) {
+			continue
+		}
+		for _, l := range loops {
+			if l.Blocks[st.Block()] && !l.Blocks[al.Block()] {
+				return true
+			}
+		}
+	}
+	return false
 }
